@@ -84,7 +84,8 @@ def gen_steps(rng, frame, tier):
             have_parquet = True
             steps.append({"op": "parquet", "writer": rng.choice(("to_parquet", "pack")),
                           "n": rng.choice((2, 3, 5)), "geometry": rng.choice([None] + geo),
-                          "bounds": gen.gen_box(rng) if rng.random() < 0.5 else None})
+                          "bounds": gen.gen_box(rng) if rng.random() < 0.5 else None,
+                          "colperm": rng.getrandbits(16) | 1 if rng.random() < 0.4 else 0})
         else:
             steps.append({"op": op})
     return steps
@@ -409,6 +410,15 @@ def _drive(case, root, fs, probes, sig):
                 if geom:
                     kw["geometry"] = geom
                     probes["step_parquet_geometry"] = 1
+                    if step.get("colperm"):
+                        # all columns, asked for in another order, together with geometry=:
+                        # the frame still represents the same rows with that active column
+                        perm = list(template["order"])
+                        random.Random(step["colperm"]).shuffle(perm)
+                        kw["columns"] = perm
+                        template = dict(template, order=perm)
+                        snaps = [dict(s_, order=perm) for s_ in snaps]
+                        probes["step_parquet_columns_reordered"] = 1
                 if box:
                     kw["bounds"] = tuple(box)
                     probes["step_parquet_bounds"] = 1
